@@ -163,4 +163,69 @@ theorem filter_sortBy {α} (lt : α → α → Bool) (wo : WeakOrder lt) (p : α
 theorem keyOrder_weak {β} : WeakOrder (fun (a b : Str × β) => strLt a.1 b.1) :=
   ⟨fun a b h => strLt_asymm a.1 b.1 h, fun a b c h1 h2 => strLt_negtrans a.1 b.1 c.1 h1 h2⟩
 
+/-- `strLt` is total: two texts neither of which is smaller are equal -/
+theorem strLt_total (a b : Str) (h1 : strLt a b = false) (h2 : strLt b a = false) : a = b := by
+  induction a generalizing b with
+  | nil =>
+    cases b with
+    | nil => rfl
+    | cons y ys => simp [strLt] at h1
+  | cons x xs ih =>
+    cases b with
+    | nil => simp [strLt] at h2
+    | cons y ys =>
+      simp only [strLt] at h1 h2
+      by_cases hxy : x.toNat < y.toNat
+      · simp [hxy] at h1
+      · by_cases hyx : y.toNat < x.toNat
+        · simp [hyx] at h2
+        · simp only [hxy, hyx, ↓reduceIte] at h1 h2
+          have hc : x = y := Char.toNat_inj.mp (by omega)
+          rw [hc, ih ys h1 h2]
+
+theorem perm_insertBy {α} (lt : α → α → Bool) (x : α) (l : List α) : (insertBy lt x l).Perm (x :: l) := by
+  induction l with
+  | nil => exact List.Perm.refl _
+  | cons y ys ih =>
+    simp only [insertBy]
+    split
+    · exact (List.Perm.cons y ih).trans (List.Perm.swap x y ys)
+    · exact List.Perm.refl _
+
+theorem perm_sortBy {α} (lt : α → α → Bool) (l : List α) : (sortBy lt l).Perm l := by
+  induction l with
+  | nil => exact List.Perm.refl _
+  | cons x xs ih => exact (perm_insertBy lt x _).trans (List.Perm.cons x ih)
+
+/-- two sorted lists with the same elements are equal, when elements that compare equal are equal -/
+theorem sorted_perm_eq {α} (lt : α → α → Bool) (l1 l2 : List α) (hp : l1.Perm l2) (h1 : Sorted lt l1) (h2 : Sorted lt l2)
+    (tot : ∀ a ∈ l1, ∀ b ∈ l1, lt a b = false → lt b a = false → a = b) : l1 = l2 := by
+  induction l1 generalizing l2 with
+  | nil => exact (List.Perm.nil_eq hp)
+  | cons x xs ih =>
+    cases l2 with
+    | nil => exact absurd hp.symm (List.Perm.nil_eq · |> fun h => by cases h)
+    | cons y ys =>
+      have hx : x ∈ y :: ys := hp.subset (List.mem_cons_self ..)
+      have hy : y ∈ x :: xs := hp.symm.subset (List.mem_cons_self ..)
+      have hxy : x = y := by
+        rcases List.mem_cons.mp hx with e | e
+        · exact e
+        · rcases List.mem_cons.mp hy with e' | e'
+          · exact e'.symm
+          · exact tot x (List.mem_cons_self ..) y hy (h1.1 y e' |> fun h => by
+              -- lt y x = false from sortedness of l1, lt x y = false from sortedness of l2
+              exact h2.1 x e) (h1.1 y e')
+      subst hxy
+      have hp' : xs.Perm ys := List.Perm.cons_inv hp
+      rw [ih ys hp' h1.2 h2.2 (fun a ha b hb => tot a (List.mem_cons_of_mem _ ha) b (List.mem_cons_of_mem _ hb))]
+
+/-- sorting does not depend on the order of the input, when elements that compare equal are equal -/
+theorem sortBy_perm {α} (lt : α → α → Bool) (wo : WeakOrder lt) (l1 l2 : List α) (hp : l1.Perm l2)
+    (tot : ∀ a ∈ l1, ∀ b ∈ l1, lt a b = false → lt b a = false → a = b) : sortBy lt l1 = sortBy lt l2 := by
+  apply sorted_perm_eq lt _ _ (((perm_sortBy lt l1).trans hp).trans (perm_sortBy lt l2).symm)
+    (sorted_sortBy lt wo l1) (sorted_sortBy lt wo l2)
+  intro a ha b hb
+  exact tot a ((perm_sortBy lt l1).subset ha) b ((perm_sortBy lt l1).subset hb)
+
 end Gpa.Text
